@@ -171,8 +171,13 @@ def handle (j : Json) : Except String Json := do
   | "select" =>
     let kind ← (← j.getObjVal? "kind").getStr?
     let dims ← (← (← j.getObjVal? "dims").getArr?).toList.mapM (·.getNat?)
-    let g0 : Model.Graph := {}
     let nm := (j.getObjValD "name").getStr?.toOption.getD "r"
+    -- other inhabitants whose names start with the same characters: a second tree `<nm>2`, a unit `<nm>_cfg`
+    let g0 : Model.Graph ← match (({} : Model.Graph).addNodesAsTree (nm ++ "2") [2, 2] 0 true 3 0) with
+      | .ok g => (match g.addNode { name := nm ++ "_cfg", kind := .endpoint, descIdx := 0 } with
+          | .ok g => pure g
+          | .error e => throw s!"build: {e.msg}")
+      | .error e => throw s!"build: {e.msg}"
     let g ← match (if kind == "tree" then g0.addNodesAsTree nm dims 0 true (dims.length + 1) 0
                      else g0.addNodesAsArray nm dims .router 0 false) with
       | .ok g => pure g
